@@ -28,27 +28,17 @@ def showM (st : MState Float) : String :=
     s!"c={c}/n={i.count}/pr={showF64c i.prior}/fc={showList showF64c i.fcount}/lp={showList tF i.flogp}"
   if parts.isEmpty then "-" else ";".intercalate parts
 
-/-- states after every batch; `none` when the real code returns an error (guard) -/
-def scanHist {σ : Type} (step : σ → Batch Float → σ) (p : Nat) (init : σ) :
-    List (Batch Float) → Option (List σ)
-  | [] => some []
-  | b :: rest =>
-    if nbGuard p b then
-      let s := step init b
-      (scanHist step p s rest).map (s :: ·)
-    else none
-
 def handleGnb (toks : List String) : Option String := do
   let vs ← argF64 toks "vs"; let p ← argNat toks "p"
   let hist ← parseHist toks
-  match scanHist (gnbStep vs p) p [] hist with
+  match nbFitHistory (gnbStep vs p) [] (nbGuard p) none hist with
   | none => some "err"
   | some sts => some ("ok " ++ " ".intercalate (sts.map showG))
 
 def handleMnb (toks : List String) : Option String := do
   let a ← argF64 toks "alpha"; let p ← argNat toks "p"
   let hist ← parseHist toks
-  match scanHist (mnbStep a p) p [] hist with
+  match nbFitHistory (mnbStep a p) [] (fun _ => true) none hist with
   | none => some "err"
   | some sts => some ("ok " ++ " ".intercalate (sts.map showM))
 
@@ -71,7 +61,7 @@ def handleGnbPred (toks : List String) : Option String := do
   let vs ← argF64 toks "vs"; let p ← argNat toks "p"
   let hist ← parseHist toks
   let qs ← argF64s2 toks "q"
-  match scanHist (gnbStep vs p) p [] hist with
+  match nbFitHistory (gnbStep vs p) [] (nbGuard p) none hist with
   | none => some "err"
   | some sts => some (predLine (gnbJll twoPi 0.5) (sts.getLastD []) qs)
 
@@ -79,7 +69,7 @@ def handleMnbPred (toks : List String) : Option String := do
   let a ← argF64 toks "alpha"; let p ← argNat toks "p"
   let hist ← parseHist toks
   let qs ← argF64s2 toks "q"
-  match scanHist (mnbStep a p) p [] hist with
+  match nbFitHistory (mnbStep a p) [] (fun _ => true) none hist with
   | none => some "err"
   | some sts => some (predLine mnbJll (sts.getLastD []) qs)
 
@@ -96,8 +86,7 @@ def handleKm (toks : List String) : Option String := do
   let c0 ← argF64s2 toks "c0"
   let xs ← (arg toks "x").bind (parseList3 parseF64)
   if c0.isEmpty then none else
-  let init : KState Float := { centroids := c0, counts := c0.map fun _ => 0 }
-  let rs := kmRunBy m tol init xs
+  let rs := kmFitHistory m tol c0 none xs
   let parts := rs.map fun (s, conv, inertia) =>
     s!"cs={showList2 showF64c s.centroids}/cnt={showList showF64c s.counts}/conv={if conv then 1 else 0}/in={tF inertia}"
   some ("ok " ++ " ".intercalate parts)
@@ -138,12 +127,8 @@ def handleFtrlFit (toks : List String) : Option String := do
   let xs ← (arg toks "x").bind (parseList3 parseF64)
   let ys ← argNats2 toks "y"
   if xs.length != ys.length then none else
-  let p := z0.length
-  let init : FState Float := ⟨z0, z0.map fun _ => 0⟩
-  let (_, outs) := (xs.zip ys).foldl (fun (acc : FState Float × List String) b =>
-    let s := ftrlStep 35.0 r32 hp p acc.1 (b.1, b.2.map (· != 0))
-    (s, acc.2 ++ [showF hp s])) (init, [])
-  some ("ok " ++ " ".intercalate outs)
+  let sts := ftrlFitHistory 35.0 r32 hp z0 none ((xs.zip ys).map fun b => (b.1, b.2.map (· != 0)))
+  some ("ok " ++ " ".intercalate (sts.map (showF hp)))
 
 def handle (toks : List String) : String :=
   let r := match toks with
